@@ -1,7 +1,7 @@
 (* C13 -- Streaming is buffer-size independent and memory-bounded.
    Only statements, each closed by [exact] of a lemma from Proofs/. *)
 From Tola Require Import Py.Base Model.Fragment Model.Scaffold Model.Fasta Model.Stream Model.FastaSpec
-  Proofs.Chunks Proofs.StreamFinal.
+  Proofs.Chunks Proofs.StreamFinal Proofs.FastaIndex.
 From Tola Require Proofs.Stream.
 
 (* chunk arithmetic: for every buffer size >= 1 the forward / reverse iterators
@@ -53,3 +53,19 @@ Theorem C13_stream_buffer_independent : forall file idx seqs b1 b2 L gap_char na
   = write_scaffold file idx b2 (Z.of_nat L) gap_char name rows.
 Proof. exact write_scaffold_buffer_independent_final. Qed.
 Print Assumptions C13_stream_buffer_independent.
+
+(* indexing gives the same index and assembly for EVERY byte string and all
+   buffer sizes (the third component of the model's result is the ghost peak
+   buffer length, which does depend on the buffer size) *)
+Theorem C13_index_buffer_independent : forall file b1 b2,
+  drop_peak (index_fasta file b1) = drop_peak (index_fasta file b2).
+Proof. exact index_buffer_independent. Qed.
+Print Assumptions C13_index_buffer_independent.
+
+(* ghost bound: the sequence buffer never holds more than buffer-size residues
+   plus one input line *)
+Theorem C13_index_peak_bounded : forall file buf idx asm peak,
+  0 <= buf -> index_fasta file buf = Ok (idx, asm, peak) ->
+  peak <= buf + max_line file.
+Proof. exact index_peak_bounded. Qed.
+Print Assumptions C13_index_peak_bounded.
